@@ -118,6 +118,15 @@ func (f *FragmentBuffer) pushHandshakeFragments(
 			continue
 		}
 
+		if frag.handshakeHeader.FragmentLength == 0 && frag.handshakeHeader.Length != 0 {
+			// An empty fragment of a non-empty message carries nothing. Storing
+			// it would occupy its offset and make the buffer discard the data
+			// fragment that starts there as a duplicate.
+			buf = buf[end:]
+
+			continue
+		}
+
 		messageFragments, ok := f.cache[frag.handshakeHeader.MessageSequence]
 		if !ok {
 			messageFragments = &fragments{
